@@ -388,7 +388,12 @@ def execute(program):
                 if sp.get("persist") and k == 0:
                     if feed.mode == "static":
                         feed.install_static(m, 0, N)
-                    m = faults.persist(m, sp["persist"])
+                    try:
+                        m = faults.persist(m, sp["persist"])
+                    except faults.PersistFailed as e_:
+                        w.violate("copy_equal", str(e_), nidx)
+                        ok = False
+                        break
                     w.bump("fault_persist_" + sp["persist"])
         if ok:
             cat = np.concatenate([pieces[0]] + [p[:, 1:] for p in pieces[1:]], axis=1)
